@@ -80,6 +80,7 @@ type Wish struct {
 	Async, Tiny        int // -1 = profile default, else percent
 	Spare              int
 	NoLearner          bool
+	Learners           int  // number of learners among the initial members (0: profile default, at most one)
 	OnlySizeLimits     bool // tiny MaxSizePerMsg / MaxCommittedSizePerReady only; no inflight or uncommitted limits
 }
 
@@ -144,14 +145,14 @@ func GenCluster(r *rand.Rand, p Profile, seed int64, w Wish) JCluster {
 	learner := n >= 2 && pct(r, p.Learner)
 	for i := 1; i <= n; i++ {
 		id := uint64(i)
-		if learner && i == n {
+		if (learner && i == n && w.Learners == 0) || (w.Learners > 0 && i > n-w.Learners) {
 			conf.Learners = append(conf.Learners, id)
 		} else {
 			conf.Voters = append(conf.Voters, id)
 		}
 		cl.Nodes = append(cl.Nodes, mk(id, true))
 	}
-	if n < 5 && pct(r, p.Spare) {
+	if n < 5 && w.MaxNodes <= 5 && pct(r, p.Spare) {
 		cl.Nodes = append(cl.Nodes, mk(uint64(n+1), false))
 		if n < 4 && (pct(r, 30) || p.Spare >= 100) {
 			cl.Nodes = append(cl.Nodes, mk(uint64(n+2), false))
